@@ -44,9 +44,9 @@ def demo : List A :=
 
 example : (compile keepAll {} demo).isOk = true := by
   simp [compile, demo, buildKids, build, ignoredM, iffLoop, A.meta, inherit, getStatus, getConfig, keepAll, checkNames, firstDup,
-    flatNames, flatCaseNames, CN.attr, Except.isOk, Except.toBool]
+    flatNames, flatCaseNames, caseKidNames, choiceMarks, kidMarks, mark, dataNames, dataCaseNames, CN.attr, Except.isOk, Except.toBool]
 example : compile (fun a => !a.cfg) {} demo = .ok [] := by
   simp [compile, demo, buildKids, build, ignoredM, iffLoop, A.meta, inherit, getStatus, getConfig, checkNames, firstDup,
-    flatNames, flatCaseNames, CN.attr]
+    flatNames, flatCaseNames, caseKidNames, choiceMarks, kidMarks, mark, dataNames, dataCaseNames, CN.attr]
 
 end YV.Props.C20
